@@ -456,7 +456,7 @@ type ccCase struct {
 
 func covFloat(a, b, w []float64) float64 {
 	r := newBiRef(a, b, w)
-	return r.C.div(r.rx.W.subf(1)).f()
+	return r.C.div(r.rx.W).f() // the normalisation cancels in the canonical correlations
 }
 
 // invSqrtSym returns S^{-1/2} for a symmetric positive definite matrix and its
@@ -508,7 +508,7 @@ func checkCC(c ccCase) *vk.Failure {
 	if w != nil {
 		vk.NonTrivial("cca", c.WC, nClass(n), xd, yd)
 	}
-	vk.Sample("cca", c)
+	vk.Sample("cancorr", c)
 	ctx := fmt.Sprintf("n=%d xd=%d yd=%d wc=%d seed=%d", n, xd, yd, c.WC, c.Seed)
 	var cc stat.CC
 	if err := cc.CanonicalCorrelations(x, y, w); err != nil {
@@ -622,7 +622,7 @@ func checkCC(c ccCase) *vk.Failure {
 }
 
 func TestCC(t *testing.T) {
-	vk.Run(t, "cca", vk.Opts{Quick: 2500, Thorough: 80000, NoCrumb: true}, func(t *rapid.T) ccCase {
+	vk.Run(t, "cancorr", vk.Opts{Quick: 2500, Thorough: 80000, NoCrumb: true}, func(t *rapid.T) ccCase {
 		xd := rapid.IntRange(1, 4).Draw(t, "xd")
 		yd := rapid.IntRange(1, 4).Draw(t, "yd")
 		return ccCase{
